@@ -599,3 +599,94 @@ def rule_swallowed_raise(ctx: Ctx, prog: Program) -> None:
     if not n_bad:
         ctx.ok("R-SWALLOWED-RAISE", "no raise statement in any function reached through a function pointer",
                sample={"functions": len(clo), "registries": sorted(set(prog.dispatch_types().values()))})
+
+
+# ------------------------------------------------------------------------------------------ R-MODE-SORT
+# reviewed sites where the order of equal keys cannot matter (one line of reason each)
+UNSTABLE_SORT_OK = {
+    ("alldifferent_propagator", "compute_domains_alldifferent"): "ranks of the Hall-interval filtering: the filtered bounds are the bound-consistent ones, which do not depend on the order of equal bounds",
+    ("gcc_propagator", "compute_domains_gcc"): "ranks of the Hall-interval filtering of gcc: same argument",
+}
+
+
+def rule_mode_sort(ctx: Ctx, prog: Program) -> None:
+    """np.argsort / np.sort default to an unstable quicksort whose order of *equal* keys is an implementation detail: Numba's compiled
+    version and NumPy's (interpreted mode; also NumPy builds for other CPUs) disagree on it.  Where that order is visible -- which value a
+    heuristic picks among equally cheap ones, in which order equally complex constraints are scheduled -- results and statistics differ
+    between the two modes and from one arrangement of the input to another.  Rule: every argsort / sort of an array in library code asks
+    for a stable kind, except at the reviewed sites where ties cannot matter."""
+    ctx.rule("R-MODE-SORT")
+    n = n_ok = 0
+    for f in prog.all_functions():
+        if ".examples." in f.module:
+            continue
+        for node in ast.walk(f.node):
+            if not isinstance(node, ast.Call):
+                continue
+            fn_txt = ast.unparse(node.func)
+            is_sort = fn_txt in ("np.argsort", "numpy.argsort", "np.sort", "numpy.sort") or (isinstance(node.func, ast.Attribute) and node.func.attr == "argsort")
+            if not is_sort:
+                continue
+            n += 1
+            kind = next((kw.value for kw in node.keywords if kw.arg == "kind"), None)
+            stable = isinstance(kind, ast.Constant) and kind.value in ("stable", "mergesort")
+            key = (f.module.split(".")[-1], f.name)
+            if stable or key in UNSTABLE_SORT_OK:
+                n_ok += 1
+                ctx.ok("R-MODE-SORT", f"{f.qualname}: `{ast.unparse(node)[:50]}` " + ("is stable" if stable else "-- ties cannot matter: " + UNSTABLE_SORT_OK[key]), nontrivial=False)
+            else:
+                ctx.violation("R-MODE-SORT", f.path, f.qualname, f"unstable-sort:{ast.unparse(node.args[0])[:30] if node.args else ''}", f"{f.path}:{node.lineno}",
+                              f"{f.qualname} orders by `{ast.unparse(node)[:60]}` without asking for a stable sort: the order of equal keys differs between "
+                              "compiled mode (Numba's quicksort) and interpreted mode (NumPy's), and depends on how the input happened to be arranged -- "
+                              "with ties, the value chosen / the order of scheduling, hence the sequence of solutions or the statistics, is not reproducible")
+    ctx.floor("R-MODE-SORT:array-sorts", n, 4)
+
+
+# ------------------------------------------------------------------------------------------ R-SENTINEL-STORE
+def rule_sentinel_store(ctx: Ctx, prog: Program) -> None:
+    """A filtering function that scans candidates keeps running extrema in locals initialised to +/- sys.maxsize ('nothing seen yet') and
+    later stores them into the (32-bit) domains through min / max.  When the scan saw no candidate the local still holds the 64-bit
+    sentinel; the functions therefore test 'no candidate left' and return before they store.  If the store comes first, the sentinel is
+    written into an int32 cell: compiled code truncates it silently, interpreted code (NumPy >= 2) raises OverflowError -- the two modes
+    diverge on every dead end of that constraint.  Rule: in such a function, every store of a sentinel-initialised local into the domains
+    is preceded, after the scan, by a test that returns PROP_INCONSISTENCY."""
+    from .propagators import propagator_triples
+
+    ctx.rule("R-SENTINEL-STORE")
+    n = 0
+    for _, fn, _ in propagator_triples(prog):
+        body = fn.node.body
+        sent = set()
+        for st in body:
+            if isinstance(st, ast.Assign) and len(st.targets) == 1 and isinstance(st.targets[0], ast.Name) and "sys.maxsize" in ast.unparse(st.value):
+                sent.add(st.targets[0].id)
+        if not sent:
+            continue
+        dom = fn.params[0]
+        views = {dom}
+        for st in body:
+            if isinstance(st, ast.Assign) and len(st.targets) == 1 and isinstance(st.targets[0], ast.Name) and isinstance(st.value, ast.Subscript) \
+                    and isinstance(st.value.value, ast.Name) and st.value.value.id in views:
+                views.add(st.targets[0].id)
+        scan_end = max((k for k, st in enumerate(body) if isinstance(st, (ast.For, ast.While)) and any(
+            isinstance(x, ast.Name) and x.id in sent and isinstance(x.ctx, ast.Store) for x in ast.walk(st))), default=None)
+        if scan_end is None:
+            continue
+        n += 1
+        ctx.fn(fn.fq)
+        guarded = False
+        bad = None
+        for st in body[scan_end + 1:]:
+            if isinstance(st, ast.If) and any(isinstance(x, ast.Return) and isinstance(x.value, ast.Name) and x.value.id == "PROP_INCONSISTENCY" for x in ast.walk(st)):
+                guarded = True
+            for x in ast.walk(st):
+                if isinstance(x, ast.Assign) and len(x.targets) == 1 and isinstance(x.targets[0], ast.Subscript) and isinstance(x.targets[0].value, ast.Name) \
+                        and x.targets[0].value.id in views and any(isinstance(y, ast.Name) and y.id in sent for y in ast.walk(x.value)) and not guarded and bad is None:
+                    bad = x
+        if bad is None:
+            ctx.ok("R-SENTINEL-STORE", f"{fn.name}: the running extrema ({', '.join(sorted(sent))}) are stored only after the 'no candidate' exit")
+        else:
+            ctx.violation("R-SENTINEL-STORE", fn.path, fn.name, f"store-before-exit:{ast.unparse(bad.targets[0])}", f"{fn.path}:{bad.lineno}",
+                          f"{fn.name} stores `{ast.unparse(bad)[:60]}` before it has tested that the scan found a candidate: when none is left the local still "
+                          "holds +/- sys.maxsize, which compiled code truncates into the 32-bit cell silently while interpreted code raises OverflowError")
+    ctx.floor("R-SENTINEL-STORE:scans-with-sentinels", n, 2)
